@@ -148,7 +148,7 @@ func s1Cases(c *vkit.Ctx) []s1Case {
 func s2Cases(c *vkit.Ctx) []s2Case {
 	var out []s2Case
 	add := func(n int, tm template, ts []tuple, order string, sinks int, umask int, note string) {
-		out = append(out, s2Case{idx: len(out), n: n, tmpl: tm, tuples: ts, order: order, nSinks: sinks, perTuple: 3, umask: umask, note: note})
+		out = append(out, s2Case{idx: len(out), n: n, tmpl: tm, tuples: ts, order: order, nSinks: sinks, perTuple: 3, umask: umask, umaskProbe: note != "" && note[:2] == "/u", note: note})
 	}
 	t1, t2, t3 := templatesFor(1), templatesFor(2), templatesFor(3)
 	// one key field: the whole alphabet
